@@ -25,6 +25,14 @@ theorem resume_after_last_received (w : CW K O) :
     (w.step key ver acc .retry).c = w.b ∧ (w.step key ver acc .retry).b = w.b ∧ (w.step key ver acc .retry).a = w.a := by
   simp [CW.step]
 
+/-- … in particular never before what the cache has already applied: a reconnect does not make the server replay
+changes the controller has consumed (the lower bound the controller engine checks on every `Watch(rv)` call) -/
+theorem resume_not_before_applied {w : CW K O} (h : CReach key ver acc w) :
+    w.a ≤ (w.step key ver acc .retry).c ∧ (w.step key ver acc .retry).c ≤ w.c := by
+  have hp := (creach_inv key ver acc h).pipe
+  simp only [CW.step]
+  omega
+
 /-- **events already received are not discarded**: the end of a session (server close, non-object frame,
 connect error) leaves the watcher's out channel `hist[a..b)` and the cache untouched -/
 theorem received_not_discarded (w : CW K O) :
@@ -130,3 +138,4 @@ end KC.C04
 #print axioms KC.C04.overflow_breaks_continuity
 #print axioms KC.C04.watch_progress
 #print axioms KC.C04.pipeline_step_decreases_lag
+#print axioms KC.C04.resume_not_before_applied
